@@ -67,7 +67,7 @@ func c07Script(n int, sched []c07opt) []scripted.Reply {
 	slots := c07Slots(n)
 	var script []scripted.Reply
 	for i, o := range sched {
-		script = append(script, scripted.Reply{At: slots[o.slot], TTL: uint8(o.ttl), Dest: o.dest,
+		script = append(script, scripted.Reply{At: slots[o.slot], TTL: uint8(o.ttl), Dest: o.dest, RTT: time.Duration((i*7919+o.ttl*31)%47+1) * time.Millisecond,
 			Addr: netip.AddrFrom4([4]byte{10, byte(i + 1), byte(o.slot), byte(o.ttl)})})
 	}
 	return script
@@ -236,7 +236,7 @@ func checkC07() fw.Check {
 					total := p.timeout + time.Duration(n)*p.delay
 					for t := 1; t <= n; t++ {
 						for k := r.Intn(4); k > 0; k-- {
-							script = append(script, scripted.Reply{At: time.Duration(r.Int63n(int64(total * 3 / 4))), TTL: uint8(t), Dest: r.Intn(5) == 0,
+							script = append(script, scripted.Reply{At: time.Duration(r.Int63n(int64(total * 3 / 4))), TTL: uint8(t), Dest: r.Intn(5) == 0, RTT: time.Duration(r.Intn(3)*r.Intn(40)) * time.Millisecond,
 								Addr: netip.AddrFrom4([4]byte{10, byte(k), byte(i), byte(t)})})
 						}
 					}
@@ -280,7 +280,7 @@ func c07RandomScript(r *rand.Rand, p engParams) []scripted.Reply {
 	for t := int(p.first); t <= int(p.last); t++ {
 		for k := r.Intn(5); k > 0; k-- {
 			dest := dests[t] && r.Intn(3) > 0
-			script = append(script, scripted.Reply{At: time.Duration(r.Int63n(int64(total+p.poll))) | 1, TTL: uint8(t), Dest: dest,
+			script = append(script, scripted.Reply{At: time.Duration(r.Int63n(int64(total+p.poll))) | 1, TTL: uint8(t), Dest: dest, RTT: time.Duration(r.Intn(3)*r.Intn(40)) * time.Millisecond,
 				Addr: netip.AddrFrom4([4]byte{10, byte(k), byte(len(script)), byte(t)})})
 		}
 	}
